@@ -352,6 +352,8 @@ where
     fn init(&mut self, spi: &mut SPI, delay: &mut DELAY) -> Result<(), SPI::Error> {
         // Reset the device
         self.interface.reset(delay, 20_000, 2000);
+        // the hardware reset leaves the controller powered off
+        self.is_turned_on = false;
 
         // Set the panel settings: LUT from register
         self.cmd_with_data(spi, Command::PanelSetting, &[0x6F])?;
